@@ -716,3 +716,65 @@ def mass_setters_read_back_on_a_cut_block(k: int, sf: float, a1: float, b1: floa
     assume(v1 > 0 and v2 > 0 and sf > 0)
     k = choose(k, 1, 2)
     mass_setters_contract(composite(CutBlock, two_children(k, a1, b1, v1, b2, c2, v2, T), sf=sf), g, sf)
+
+
+# ----------------------------------------------------------------------------- mass fractions
+def mass_fraction_contract(o, request, untouched):
+    """ArmiObject.setMassFracs(request): the requested fractions read back, the untouched nuclides keep their proportions
+    (and fill the rest), the total density is unchanged, the fractions sum to one"""
+    rho0 = o.density()
+    old = {n: o.getMassFrac(n) for n in untouched}
+    o.setMassFracs(dict(request))
+    assert eq(o.density(), rho0), "the total density is unchanged"
+    total = 0.0
+    for n in sorted(request):
+        assert eq(o.getMassFrac(n), request[n]), "an assigned mass fraction reads back"
+        total = total + request[n]
+    rest = sum(old[n] for n in untouched)
+    for n in untouched:
+        assert eq(o.getMassFrac(n) * rest, old[n] * (1.0 - total)), "the remaining nuclides keep their proportions and fill the rest"
+    fr = o.getMassFracs()
+    assert eq(sum(fr[n] for n in sorted(fr)), 1.0), "mass fractions sum to one"
+
+
+GENMF = dict(a=(0.001, 0.1), b=(0.001, 0.1), c=(0.001, 0.1), x=(0.01, 0.45), y=(0.01, 0.45), V=(0.01, 500.0), T=(20.0, 600.0))
+
+
+def mf_component(a, b, c, x, y, V, T):
+    """a Component holding A, B, C with symbolic positive densities (setMassFrac(s) is ArmiObject's, executed on it)"""
+    weights_positive()
+    assume(V > 0 and a > 0 and b > 0 and c > 0 and x > 0 and y > 0 and x + y < 1)
+    return settable({"A": a, "B": b, "C": c}, V, T)
+
+
+@lemma(overrides=OV, stubs=ST, gen=GENMF)
+def mass_fraction_of_a_present_nuclide_reads_back(a: float, b: float, c: float, x: float, y: float, V: float, T: float):
+    mass_fraction_contract(mf_component(a, b, c, x, y, V, T), {"A": x}, ["B", "C"])
+
+
+@lemma(overrides=OV, stubs=ST, gen=GENMF)
+def mass_fraction_of_a_new_nuclide_reads_back(a: float, b: float, c: float, x: float, y: float, V: float, T: float):
+    """a nuclide that is NOT yet in the composition (D): its fraction reads back and is taken out of the others' share"""
+    mass_fraction_contract(mf_component(a, b, c, x, y, V, T), {"D": y}, ["A", "B", "C"])
+
+
+@lemma(overrides=OV, stubs=ST, gen=GENMF)
+def mass_fractions_of_a_present_and_a_new_nuclide_read_back(a: float, b: float, c: float, x: float, y: float, V: float, T: float):
+    mass_fraction_contract(mf_component(a, b, c, x, y, V, T), {"A": x, "D": y}, ["B", "C"])
+
+
+@lemma(overrides=OV, stubs=ST, gen=GENMF)
+def mass_fractions_of_two_present_nuclides_read_back(a: float, b: float, c: float, x: float, y: float, V: float, T: float):
+    mass_fraction_contract(mf_component(a, b, c, x, y, V, T), {"A": x, "B": y}, ["C"])
+
+
+@lemma(overrides=OV, stubs=ST, gen=dict(a=(0.001, 0.1), b=(0.001, 0.1), x=(0.01, 0.9), V=(0.01, 500.0), T=(20.0, 600.0)))
+def setMassFrac_of_one_nuclide(a: float, b: float, x: float, V: float, T: float):
+    """setMassFrac(name, x) = setMassFracs({name: x}); a zero-density object refuses"""
+    weights_positive()
+    assume(V > 0 and a > 0 and b > 0 and 0 < x and x < 1)
+    comp = settable({"A": a, "B": b}, V, T)
+    rho0 = comp.density()
+    comp.setMassFrac("D", x)
+    assert eq(comp.getMassFrac("D"), x) and eq(comp.density(), rho0)
+    assert eq(comp.getMassFrac("A") * b * wt("B"), comp.getMassFrac("B") * a * wt("A")), "A : B as before"
